@@ -209,10 +209,14 @@ Fixpoint apply_rest (o : options) (p : patch) (lines : list line) (hunk_num : na
       apply_rest o p lines (S hunk_num) s' r
   end.
 
-(* first hunk: reversed-patch check (applier.cpp:269-298) *)
-Definition apply_first (o : options) (p : patch) (lines : list line) (s : astate) (hs : list hunk) : res astate :=
+(* first hunk: reversed-patch check (applier.cpp:269-298).  Also returns the patch record as the rest of the run sees it:
+   when the user (or -t) decides that the patch is to be applied reversed, the whole record is reversed, just as under -R
+   (creation and deletion, names, times and modes change places; creates_file is taken again from the reversed record). *)
+Definition with_patch (q : patch) (m : res astate) : res (astate * patch) := do s <- m; Ok (s, q).
+
+Definition apply_first (o : options) (p : patch) (lines : list line) (s : astate) (hs : list hunk) : res (astate * patch) :=
   match hs with
-  | [] => Ok s
+  | [] => Ok (s, p)
   | h :: r =>
       let loc := locate_for p lines h (ignore_whitespace o) (a_offerr s) (max_fuzz o) (a_ln s) in
       if should_check_if_patch_is_reversed loc o then
@@ -225,24 +229,22 @@ Definition apply_first (o : options) (p : patch) (lines : list line) (s : astate
                        (a_msgs s ++ fst d) (a_hunks s) in
         match snd d with
         | RHReverse =>
-            do s' <- apply_one o p lines 0 s0 rh rloc;
-            apply_rest o p lines 1 s' (map reverse_hunk r)
+            let rp := reverse_patch p in
+            with_patch rp (do s' <- apply_one o rp lines 0 s0 rh rloc; apply_rest o rp lines 1 s' (map reverse_hunk r))
         | RHIgnore =>
             let s0' := mkAS (a_out s0) (a_rej s0) (a_rejected s0) (a_ln s0) (a_o2n s0) (a_offerr s0) true (a_perfect s0)
                             (a_msgs s0) (a_hunks s0) in
-            do s' <- apply_one o p lines 0 s0' h loc;
-            apply_rest o p lines 1 s' r
+            with_patch p (do s' <- apply_one o p lines 0 s0' h loc; apply_rest o p lines 1 s' r)
         | RHApplyAnyway =>
-            do s' <- apply_one o p lines 0 s0 h loc;
-            apply_rest o p lines 1 s' r
+            with_patch p (do s' <- apply_one o p lines 0 s0 h loc; apply_rest o p lines 1 s' r)
         end
       else
-        do s' <- apply_one o p lines 0 s h loc;
-        apply_rest o p lines 1 s' r
+        with_patch p (do s' <- apply_one o p lines 0 s h loc; apply_rest o p lines 1 s' r)
   end.
 
 Definition apply_patch (o : options) (lines : list line) (p0 : patch) : res aresult :=
   let p := if reverse_patch_opt o then reverse_patch p0 else p0 in
-  do s <- apply_first o p lines (mkAS [] [] 0 0 0%Z 0%Z false true [] []) (hunks p);
+  do sp <- apply_first o p lines (mkAS [] [] 0 0 0%Z 0%Z false true [] []) (hunks p);
+  let s := fst sp in
   Ok (mkAR (a_out s ++ skipn (a_ln s) lines) (a_rej s) (a_rejected s) (a_skip s) (a_perfect s) (a_msgs s)
-           (set_hunks p (a_hunks s))).
+           (set_hunks (snd sp) (a_hunks s))).
